@@ -142,6 +142,12 @@ type csScenario struct {
 	script []csAttempt
 	log    []csItem
 	chunk  int // body chunking mode (not part of the scenario's meaning): 0 all at once, n>0 n bytes per Read, -1 data+error in one Read
+	// bg: ANOTHER stream of the same connection, busy while the stream under test is cut (call streams only).
+	// "sahang": the standalone stream is open (200 text/event-stream), ends cleanly without an event, and its
+	// reconnection GET is accepted by the peer but never answered (no response headers) for as long as the
+	// connection lives; the call under test is made once that GET is pending.  The streams of a connection are
+	// independent: what the model says of the stream under test does not depend on bg.
+	bg string
 }
 
 const csCallID = 2 // initialize is request 1, the call under test request 2
@@ -219,8 +225,12 @@ func (s *csScenario) op() string {
 		}
 		return strings.Join(l, sep)
 	}
-	return fmt.Sprintf("scn %s mr=%d first=%d:%s script=%s log=%s full=%s", s.kind, s.mr, s.first.cut, s.first.term,
-		j(sc, ","), j(lg, ";"), "x"+hx(s.full()))
+	bg := ""
+	if s.bg != "" {
+		bg = " bg=" + s.bg
+	}
+	return fmt.Sprintf("scn %s mr=%d first=%d:%s script=%s log=%s full=%s%s", s.kind, s.mr, s.first.cut, s.first.term,
+		j(sc, ","), j(lg, ";"), "x"+hx(s.full()), bg)
 }
 
 func csParseScenario(line string) (*csScenario, error) {
@@ -244,6 +254,11 @@ func csParseScenario(line string) (*csScenario, error) {
 				return nil, err
 			}
 			s.first = a
+		case "bg":
+			if v != "sahang" {
+				return nil, fmt.Errorf("bad bg %q", v)
+			}
+			s.bg = v
 		case "script":
 			if v != "-" {
 				for _, x := range strings.Split(v, ",") {
@@ -354,6 +369,8 @@ type csServer struct {
 	sent   int // high-water mark of bytes of the full stream handed to the client (for header-less standalone GETs)
 	bad    []string
 	cancelCall func() // ends the caller's context (ctxc / ctxw)
+	bgSeen    int // GETs of the background stream (bg)
+	bgPending int // of which: accepted and not answered
 }
 
 func (sv *csServer) json(req *http.Request, status int, body string) *http.Response {
@@ -633,6 +650,31 @@ func (sv *csServer) RoundTrip(req *http.Request) (*http.Response, error) {
 	case http.MethodDelete:
 		return sv.json(req, http.StatusNoContent, ""), nil
 	case http.MethodGet:
+		if sv.s.kind == "post" && sv.s.bg == "sahang" && len(req.Header.Values(lastEventIDHeader)) == 0 {
+			// the background standalone stream: it never received an event id, so its GETs carry no
+			// Last-Event-ID (a resumption GET of the call stream always does: a call stream without an id is
+			// not resumed)
+			sv.mu.Lock()
+			n := sv.bgSeen
+			sv.bgSeen++
+			sv.saSeen = true
+			sv.mu.Unlock()
+			if n == 0 {
+				h := http.Header{}
+				h.Set("Content-Type", "text/event-stream")
+				h.Set(sessionIDHeader, "sess")
+				return &http.Response{StatusCode: 200, Status: "OK", Header: h, Request: req, Proto: "HTTP/1.1", ProtoMajor: 1, ProtoMinor: 1,
+					Body: &csBody{term: "eof", ctx: req.Context(), gate: sv.connected}}, nil
+			}
+			sv.mu.Lock()
+			sv.bgPending++
+			sv.mu.Unlock()
+			<-req.Context().Done() // accepted, never answered
+			sv.mu.Lock()
+			sv.bgPending--
+			sv.mu.Unlock()
+			return nil, req.Context().Err()
+		}
 		if sv.s.kind == "post" {
 			sv.mu.Lock()
 			seen := sv.saSeen
@@ -807,6 +849,16 @@ func csRun(t *testing.T, s *csScenario) (res csResult) {
 			sv.mu.Lock()
 			sv.cancelCall = cancelCall
 			sv.mu.Unlock()
+			if s.bg != "" {
+				// let the background stream end and start its reconnection; the call is made while that GET is pending
+				time.Sleep(time.Minute)
+				synctest.Wait()
+				sv.mu.Lock()
+				if sv.bgPending != 1 {
+					sv.bad = append(sv.bad, fmt.Sprintf("bg-pending-%d-of-%d", sv.bgPending, sv.bgSeen))
+				}
+				sv.mu.Unlock()
+			}
 			type outcome struct {
 				end   string
 				atret int
@@ -909,6 +961,9 @@ func csTags(s *csScenario, r csResult) []string {
 		if a.kind != "st" && a.kind != "ok" && a.sub != "" {
 			set["script-"+a.kind+"-"+a.sub] = true
 		}
+	}
+	if s.bg != "" {
+		set["bg-"+s.bg] = true
 	}
 	set[fmt.Sprintf("exchanges-%d", min(len(r.xs), 9))] = true
 	set[fmt.Sprintf("mr%d", s.mr)] = true
@@ -1086,6 +1141,44 @@ func csGenerate(emit func(*csScenario, string)) {
 			for _, term := range terms {
 				for _, sc := range scripts {
 					put(&csScenario{kind: kind, mr: 2, log: base.log, first: csAttempt{kind: "ok", cut: cut, term: term}, script: sc}, "x"+kind)
+				}
+			}
+		}
+	}
+
+	// ---- family g: a call stream is cut and resumed WHILE another stream of the connection is reconnecting (its
+	// GET accepted, not answered): every event boundary and one offset inside every event x {eof, err} x the
+	// reconnect scripts of family x, MaxRetries 0 (= default), 1, 2.
+	{
+		base := &csScenario{kind: "post", log: csBaseLog("post")}
+		total := len(base.full())
+		off := base.offsets()
+		rest := finalOf("post")
+		scripts := [][]csAttempt{
+			{rest},
+			{{kind: "terr"}, rest},
+			{{kind: "st", status: 503}, rest},
+			{{kind: "st", status: 404}, rest},
+			{{kind: "ok", cut: 0, term: "eof"}, rest},
+			{{kind: "ok", cut: off[2] - off[1], term: "err"}, {kind: "terr"}, rest},
+		}
+		var cuts []int
+		for i := 0; i < len(off); i++ {
+			cuts = append(cuts, off[i])
+			if i+1 < len(off) {
+				cuts = append(cuts, (off[i]+off[i+1])/2)
+			}
+		}
+		_ = total
+		gi := 0
+		for _, cut := range cuts {
+			for _, term := range terms {
+				for si, sc := range scripts {
+					gi++
+					if c01 && si%2 == 1 {
+						continue
+					}
+					put(&csScenario{kind: "post", mr: gi % 3, log: base.log, first: csAttempt{kind: "ok", cut: cut, term: term}, script: sc, bg: "sahang"}, "g")
 				}
 			}
 		}
@@ -1457,6 +1550,9 @@ func csRandom(rng *rand.Rand) *csScenario {
 		s.script = append(s.script, csAttempt{kind: "ok", cut: 1 << 20, term: "hang"})
 	} else if rng.Intn(3) != 0 {
 		s.script = append(s.script, csAttempt{kind: "ok", cut: 1 << 20, term: "eof"})
+	}
+	if kind == "post" && s.mr >= 0 && rng.Intn(4) == 0 {
+		s.bg = "sahang" // another stream of the connection is reconnecting meanwhile (MaxRetries -1: its first fruitless body fails the connection)
 	}
 	return s
 }
